@@ -344,36 +344,44 @@ def rule_sequencing(ctx):
             lem = [a for m, a, _ in ch["steps"] if a and "lemmas" in repr(flow.summ(a[0]))]
             ok = len(lem) == 1 and "consequences" in repr(flow.summ(lem[0][0])) and "conjectures" not in repr(flow.summ(lem[0][0]))
             ctx.add("SEQ", "final:%s:consequences-only" % ch["name"], ok, site, "lemmas enter the final problem through their consequences only")
-    mir = fx.mir_of(b["def_path"])
-    blocks = {bl["id"]: bl for bl in mir["blocks"]}
-    apps = [bl["id"] for bl in mir["blocks"] if bl["term"].get("t") == "Call" and (bl["term"].get("callee") or "").endswith("Vec::<T, A>::append")]
-    withname = {bl["id"] for bl in mir["blocks"] if bl["term"].get("t") == "Call" and (bl["term"].get("callee_res") or "").endswith("Problem::with_name")}
     outer_lines = {l[0].get("line") for d in ("forward", "backward") for l in hq.for_loops(body)
-                   if "self.proof_outline.%s_lemmas" % d in flow.places_in(flow.summ(l[1]))}
-    nexts = {bl["id"] for bl in mir["blocks"] if bl["term"].get("t") == "Call" and (bl["term"].get("callee") or "").endswith("Iterator::next")
-             and bl["term"].get("line") in outer_lines}
-
-    def reach_without_next(start):
-        seen, todo = set(), [start]
-        while todo:
-            x = todo.pop()
-            if x in seen:
-                continue
-            seen.add(x)
-            if x in nexts and x != start:
-                continue
-            for s_ in blocks[x]["term"].get("succ", []):
-                if not blocks[s_].get("cleanup"):
-                    todo.append(s_)
-        return seen
+                   if any(pl.endswith("proof_outline.%s_lemmas" % d) for pl in flow.places_in(flow.summ(l[1])))}
+    # the loops may live in decompose itself or in a helper extracted from it (then its body was attached to the call sites above)
+    cands = [b["def_path"]] + sorted(h for h in fx.helpers if hq.calls(body, h) or any((callee(c) or "") == h for c in walk(body) if c.get("k") in ("Call", "MethodCall")))
     n_out = 0
-    for a in apps:
-        r = reach_without_next(a)
-        hit = sorted(r & withname)
-        # the append of `problems.append(&mut ..decompose())` is also Vec::append: it is the one whose region contains no later outline problem anyway
-        n_out += 1
-        ctx.add("SEQ", "mir:append@bb%d" % a, not hit, site, "MIR: after Vec::append no Problem::with_name is reachable before the next Iterator::next (blocks %s)" % hit, nontrivial=True)
-    ctx.floor("SEQ", "mir_append_sites", n_out, 2)
+    for dp in cands:
+        try:
+            mir = fx.mir_of(dp)
+        except AnalysisGap:
+            continue
+        blocks = {bl["id"]: bl for bl in mir["blocks"]}
+        apps = [bl["id"] for bl in mir["blocks"] if bl["term"].get("t") == "Call" and (bl["term"].get("callee") or "").endswith("Vec::<T, A>::append")]
+        withname = {bl["id"] for bl in mir["blocks"] if bl["term"].get("t") == "Call" and (bl["term"].get("callee_res") or "").endswith("Problem::with_name")}
+        nexts = {bl["id"] for bl in mir["blocks"] if bl["term"].get("t") == "Call" and (bl["term"].get("callee") or "").endswith("Iterator::next")
+                 and bl["term"].get("line") in outer_lines}
+        if not nexts:
+            continue
+
+        def reach_without_next(start):
+            seen, todo = set(), [start]
+            while todo:
+                x = todo.pop()
+                if x in seen:
+                    continue
+                seen.add(x)
+                if x in nexts and x != start:
+                    continue
+                for s_ in blocks[x]["term"].get("succ", []):
+                    if not blocks[s_].get("cleanup"):
+                        todo.append(s_)
+            return seen
+        for a in apps:
+            r = reach_without_next(a)
+            hit = sorted(r & withname)
+            # the append of `problems.append(&mut ..decompose())` is also Vec::append: it is the one whose region contains no later outline problem anyway
+            n_out += 1
+            ctx.add("SEQ", "mir:append@%s#%d" % (hq.last(dp), n_out), not hit, site, "MIR of %s: after Vec::append no Problem::with_name is reachable before the next Iterator::next of the lemma loop (blocks %s)" % (hq.last(dp, 2), hit), nontrivial=True)
+    ctx.floor("SEQ", "mir_append_sites", n_out, 1)
 
 
 def rule_taken_at_call_site(ctx):
